@@ -283,7 +283,7 @@ pub fn replay_c04(case: &Value) -> Verdict {
 pub fn ty_strategy_ext(depth: u32, with_dedup: bool) -> BoxedStrategy<Ty> {
     use std::sync::Arc;
     let roots: Vec<BoxedStrategy<Ty>> = rooted_tys(depth).into_iter().map(|(_, s)| s).collect();
-    let compiled: Vec<Ty> = crate::props::derived::batch().all().into_iter().map(Ty::Adt).collect();
+    let compiled: Vec<Ty> = crate::props::derived::batch().all().into_iter().filter(|d| crate::props::derived::compiled_ok(d)).map(Ty::Adt).collect();
     let adt = prop_oneof![3 => vmodel::declgen::adt_ty_strategy(with_dedup), 1 => proptest::sample::select(compiled)].boxed();
     prop_oneof![
         6 => Union::new(roots),
